@@ -250,4 +250,6 @@ def run(prog, rep, tier, snap):
     rep.call(r18_3, prog, rep)
     rep.rule("R18.4", "the instant parser's default window covers the printers' longest output", 2)
     rep.call(r18_4, prog, rep)
+    rep.rule("R08.2", "calendar tables used by the text forms agree with the calendar (shared with C08)", 15)
+    rep.call(c08.r08_2, prog, rep)
 READY = True
